@@ -49,4 +49,44 @@ def algoLabelsA (a : ACfg) (cfg : Cfg) (st : State) (t : Int) (dsts : List Pos) 
     Option (List Nat) :=
   (algoChoicesA a cfg st t dsts).map (fun ch => (List.range dsts.length).map (labelOf st ch))
 
+/-- is the optimum of some final group of this step not unique (or too large to enumerate)?
+Driver statistic, as `Linker.stepTied`: decides whether the implementation must produce the
+algorithm's partition or only an assignment of the same cost.  A raising step counts as tied. -/
+def stepTiedA (a : ACfg) (cfg : Cfg) (st : State) (t : Int) (dsts : List Pos) : Bool :=
+  (stepNets cfg st t dsts).any (fun n =>
+    match plan a cfg.B 64 0 n with
+    | none => true
+    | some fs => fs.any (fun f =>
+        let ss := finalSrcs a cfg.B f
+        if ss.isEmpty then false
+        else if (ss.map List.length).foldl (· * ·) 1 > 50000 then true
+        else countOptimal ss != 1))
+
+/-- number of steps with a tied optimum along a labelled movie (state evolves by `nextState`) -/
+def runTiesA (a : ACfg) (cfg : Cfg) (levels : List Level) : Nat :=
+  match levels with
+  | [] => 0
+  | l0 :: rest =>
+    let st0 := nextState initCfg { srcs := [], used := [] } l0.t l0.dsts (l0.labels.getD [])
+    (rest.foldl (fun (acc : State × Nat) l =>
+      let tied := stepTiedA a cfg acc.1 l.t l.dsts
+      (nextState cfg acc.1 l.t l.dsts (l.labels.getD []), acc.2 + (if tied then 1 else 0)))
+      (st0, 0)).2
+
+/-- the labels of the deterministic adaptive algorithm for a whole movie (first level labelled
+`0 … n-1`); `none` as soon as a step raises -/
+def algoMovieA (a : ACfg) (cfg : Cfg) (levels : List Level) : Option (List (List Nat)) :=
+  match levels with
+  | [] => some []
+  | l0 :: rest =>
+    let lab0 := List.range l0.dsts.length
+    let st0 := nextState initCfg { srcs := [], used := [] } l0.t l0.dsts lab0
+    let r := rest.foldl (fun (acc : State × List (List Nat) × Bool) l =>
+      if acc.2.2 then acc else
+      match algoLabelsA a cfg acc.1 l.t l.dsts with
+      | none => (acc.1, acc.2.1, true)
+      | some labels => (nextState cfg acc.1 l.t l.dsts labels, acc.2.1 ++ [labels], false))
+      (st0, [lab0], false)
+    if r.2.2 then none else some r.2.1
+
 end TrackpyV.Adaptive
